@@ -5,7 +5,7 @@ import glob, json, os, re, sys
 def row(cells):
     return "| " + " | ".join(str(c).replace("|", "/").replace("\n", " ") for c in cells) + " |"
 
-for rnd in ("r2", "r3", "r4", "r5", "r6"):
+for rnd in ("r2", "r3", "r4", "r5", "r6", "r7"):
     print("\n#### Round %s\n" % rnd[1])
     print(row(["Seed", "Change", "Needs", "Caught by"])); print("|---|---|---|---|")
     for d in sorted(glob.glob("/verif/seeded/C*-%s-*" % rnd)):
